@@ -19,7 +19,7 @@ ASSUMPTIONS = [
   "completeness (clause 3) compares ttconv snapshots with each other at t and at the greatest reported time <= t; the probe set and "
   "clause 4 (every reference change point that alters the rendered reference snapshot is reported) come from vt/ref_isd.py",
   "superfluous significant times are allowed",
-  "sequence entries may differ from from_model(doc, s) only in regions without content (C14 states what those may be)",
+  "sequence entries may differ from from_model(doc, s) only in regions without content that paint nothing at s according to the reference (as in C14)",
 ]
 
 KW = dict(style_density=(0, 2), max_nodes=24, anim_counts=(0, 1, 1, 2, 3), ruby=False, br_styles=False,
@@ -142,9 +142,13 @@ def check(case, res):
   else:
     for t, isd in seq:
       res.evals += 1
-      a = canon.drop_empty_regions(canon.canon_isd(isd))
+      # regions without content are compared too when they paint a background at t according to the reference (as in C14)
+      paints = {sn.id for sn in ref.snapshot(t) if Ref.paints_background(sn.computed)}
+      if paints:
+        res.label("sequence-entry-with-painting-region")
+      a = canon.drop_empty_regions(canon.canon_isd(isd), paints)
       try:
-        b = canon.drop_empty_regions(snap(t))
+        b = canon.drop_empty_regions(snap(t), paints)
       except Exception as e:  # pylint: disable=broad-except
         res.crash(e)
         continue
